@@ -44,7 +44,9 @@ def streams(ctx):
     for comment in ("v4.1.6", None, "v4.1.6 pinned", "v4"):
         for rel in RELEASES[:4]:
             for tm in TAGMAPS:
-                L = render.lay(rng, nonascii=False, crlf=False, quote=rng.choice(["", "", '"', "'"]), blank=rng.chance(1, 2), comment=False)
+                L = render.lay(rng, nonascii=False, crlf=False, quote=rng.choice(["", "", '"', "'"]), blank=rng.chance(1, 2), comment=False,
+                               cgap=[" # ", "  # ", "\t# ", " #", "   #  "][len(docs) % 5])      # every spelling of the gap around '#', in turn
+                docs.append(1)
                 steps = [("uses", "actions/setup-node@v3", None, ("actions/setup-node", "v3", None)),
                          ("uses", f"actions/checkout@{H1}", comment, ("actions/checkout", comment or H1, H1)),
                          ("uses", f"actions/aws/ec2@{'1' * 40}", "v4.1.6", ("actions/aws", "v4.1.6", "1" * 40))]
